@@ -421,3 +421,21 @@ Section Stable.
         apply Z.ltb_ge in H1. apply Z.ltb_ge in H2. apply Z.ltb_ge. lia.
   Qed.
 End Stable.
+
+(* Non-vacuity: a concrete strict weak order (compare the first component) and a heap built by
+   pushes; pop returns a minimum. *)
+Example heap_example :
+  let less := fun a b : nat * nat => Nat.ltb (fst a) (fst b) in
+  let h := hpush less (hpush less (hpush less (hpush less [] (5, 0)) (2, 1)) (7, 2)) (2, 3) in
+  heap_ok less h /\ exists x r, hpop less h = Some (x, r) /\ fst x = 2 /\ length r = 3.
+Proof.
+  cbv zeta. set (less := fun a b : nat * nat => Nat.ltb (fst a) (fst b)).
+  assert (Ha : forall a b, less a b = true -> less b a = false).
+  { intros a b H. unfold less in *. apply Nat.ltb_lt in H. apply Nat.ltb_ge. lia. }
+  assert (Hn : forall a b c, less a b = false -> less b c = false -> less a c = false).
+  { intros a b c H1 H2. unfold less in *. apply Nat.ltb_ge in H1. apply Nat.ltb_ge in H2. apply Nat.ltb_ge. lia. }
+  split.
+  - repeat (apply hpush_correct; [exact Ha | exact Hn |]).
+    intros p c _ Hc. simpl in Hc. lia.
+  - vm_compute. eexists. eexists. repeat split.
+Qed.
